@@ -107,7 +107,7 @@ func builtinIssues(sc *Scenario, e *vsched.Execution) []Issue {
 			if a > b {
 				a, b = b, a
 			}
-			is = append(is, Issue{Fingerprint: fmt.Sprintf("hb-race|%s|%s|%s", r.Obj, a, b),
+			is = append(is, Issue{Fingerprint: fmt.Sprintf("hb-race|%s|%s|%s", stripLine(r.Obj), a, b),
 				Summary: fmt.Sprintf("happens-before data race on %s between %s and %s", r.Obj, r.A, r.B)})
 		}
 	}
